@@ -348,6 +348,8 @@ class CSSPageRule(cssrule.CSSRuleRules):
                 # SET, may raise:
                 newStyle.cssText = styletokens
 
+            # (read by the parser of the containing sheet or rule)
+            self._accepted = ok
             if ok:
                 # replaced margin rules are detached
                 for r in self.cssRules:
